@@ -342,6 +342,12 @@ def gen_ecl(rng, game, tables, **kw):
     subs = ['sub%d' % i for i in range(nsubs)]
     names = {'subs': subs}
     env, lit_calls = ecl_env(r, game, tables, kw.get('feats'))
+    sub_params = {}
+    for s_ in subs:
+        if not kw.get('subcalls', True): sub_params[s_] = []; continue
+        ni, nf = (r.randint(0, 1), r.randint(0, 1)) if game == 'th06' else (r.randint(0, 2), r.randint(0, 2))
+        ps = [('int', 'pa%d' % j) for j in range(ni)] + [('float', 'px%d' % j) for j in range(nf)]
+        r.shuffle(ps); sub_params[s_] = ps
     # instructions taking sub names are exercised by C20; keep E-typed calls out of random bodies unless names exist
     text = ''
     used, shape = set(), []
@@ -351,7 +357,29 @@ def gen_ecl(rng, game, tables, **kw):
             g = FileBodyGen(r, env, lit_calls, names, max_depth=r.pick([1, 2, 3]), max_stmts=r.pick([2, 5, 8]), expr_depth=r.pick([1, 2, 3]))
             b = g.generate()
         used |= b.used; shape += b.shape
-        text += 'void %s() %s\n' % (s, b.text)
+        # parameters and calls between subs (EoSD: one int and one float, passed as immediates; PCB-StB: argument registers)
+        params = sub_params[s]
+        extra = []
+        if kw.get('subcalls', True):
+            for t, nm in params:
+                if r.chance(0.5) and (env.int_vars if t == 'int' else env.float_vars):
+                    dst = r.pick(env.int_vars if t == 'int' else env.float_vars)[0]
+                    extra.append('%s%s = %s + %s;' % ('$' if t == 'int' else '%', dst, nm, '1' if t == 'int' else '1.0'))
+            for _ in range(r.wpick([(0, 3), (1, 2), (2, 1)])):
+                callee = r.pick(subs)
+                args = []
+                for t, _nm in sub_params[callee]:
+                    if game == 'th06' or r.chance(0.5): args.append(str(r.randint(0, 9)) if t == 'int' else '%d.5' % r.randint(0, 9))
+                    else:
+                        pool = env.int_vars if t == 'int' else env.float_vars
+                        args.append(('%s%s' % ('$' if t == 'int' else '%', r.pick(pool)[0])) if pool else ('3' if t == 'int' else '3.0'))
+                extra.append('%s(%s);' % (callee, ', '.join(args)))
+            if extra: used.add('subcalls')
+        body_text = b.text
+        if extra:
+            k = body_text.rstrip().rfind('}')
+            body_text = body_text[:k] + '\n'.join(extra) + '\n' + body_text[k:]
+        text += 'void %s(%s) %s\n' % (s, ', '.join('%s %s' % p for p in params), body_text)
     tt = tables.get(game, 'timeline')
     _, tl_calls = classify_calls({'sigs': tt['sigs'], 'intrinsics': {}})
     tl_calls_arg0 = [(op, params) for op, params in tt['sigs'].items()]
